@@ -4,6 +4,7 @@ import (
 	"bytes"
 	"context"
 	"crypto/sha256"
+	"encoding/base64"
 	"encoding/hex"
 	"encoding/json"
 	"fmt"
@@ -44,13 +45,14 @@ func TestMain(m *testing.M) {
 // the case: wallet configuration, balance folder, request — pure data
 
 type wcfg struct {
-	Type    int      `json:"type"`    // 3 | 4
-	AType   string   `json:"atype"`   // p2kh segwit bech32 tap
-	Testnet bool     `json:"testnet"` //
-	Path    []uint32 `json:"path"`    // type 4
-	KeyCnt  int      `json:"keycnt"`  //
-	Pass    string   `json:"pass"`    // seed password
-	CfgFee  string   `json:"cfgfee"`  // wallet.cfg fee= ("" = the default 0.001)
+	Type    int      `json:"type"`              // 3 | 4
+	AType   string   `json:"atype"`             // p2kh segwit bech32 tap
+	Testnet bool     `json:"testnet"`           //
+	Path    []uint32 `json:"path"`              // type 4
+	KeyCnt  int      `json:"keycnt"`            //
+	Pass    string   `json:"pass"`              // seed password
+	CfgFee  string   `json:"cfgfee"`            // wallet.cfg fee= ("" = the default 0.001)
+	SeedPfx string   `json:"seedpfx,omitempty"` // wallet.cfg seed= (prefix of the password)
 }
 
 // script kinds: p2pkh p2sh p2wpkh p2tr pay key number Key of the wallet (P2SH = P2SH-P2WPKH);
@@ -110,6 +112,7 @@ type txCase struct {
 	MinSig       bool    `json:"minsig,omitempty"`       //
 	TxFn         bool    `json:"txfn,omitempty"`         // -txfn out.txt
 	NoApply      bool    `json:"noapply,omitempty"`      // -a=false
+	SignKey      *int    `json:"signkey,omitempty"`      // -sign <P2PKH address of this key> (signs -msg; main() then builds the wallet a second time)
 
 	RawVer  uint32  `json:"rawver,omitempty"`
 	RawLock uint32  `json:"rawlock,omitempty"`
@@ -451,7 +454,32 @@ func verifyInput(tx *wire.Tx, idx int, spent []wire.TxOut) error {
 // ---------------------------------------------------------------------------------------------
 // the oracle
 
+// checkMessageSignature looks for the base64 "Bitcoin Signed Message" signature in the wallet's output and
+// recovers the public key from it.
+func checkMessageSignature(stdout, msg string, pub []byte) error {
+	for _, l := range strings.Split(stdout, "\n") {
+		sig, e := base64.StdEncoding.DecodeString(strings.TrimSpace(l))
+		if e != nil || len(sig) != 65 || sig[0] < 31 || sig[0] > 34 {
+			continue
+		}
+		const magic = "Bitcoin Signed Message:\n"
+		var pre bytes.Buffer
+		pre.WriteByte(byte(len(magic)))
+		pre.WriteString(magic)
+		wire.PutCompactSize(&pre, uint64(len(msg)))
+		pre.WriteString(msg)
+		h := wire.DSHA(pre.Bytes())
+		pt, ok := ec.Recover(new(big.Int).SetBytes(sig[1:33]), new(big.Int).SetBytes(sig[33:65]), new(big.Int).SetBytes(h[:]), int(sig[0]-31))
+		if !ok || !bytes.Equal(ec.SerializeCompressed(pt), pub) {
+			return fmt.Errorf("signature %s does not recover the key of the address", l)
+		}
+		return nil
+	}
+	return fmt.Errorf("no message signature was printed")
+}
+
 type caseInfo struct {
+	msgSigned bool
 	outcome   string // written | refused_insufficient | refused_other | raw_written
 	inTypes   map[string]bool
 	nIn       int
@@ -512,6 +540,9 @@ func checkCase(c txCase) (info caseInfo, err error) {
 	}
 	if c.W.CfgFee != "" {
 		cfg = append(cfg, "fee="+c.W.CfgFee)
+	}
+	if c.W.SeedPfx != "" {
+		cfg = append(cfg, "seed="+c.W.SeedPfx)
 	}
 	if err = os.WriteFile(filepath.Join(dir, "wallet.cfg"), []byte(strings.Join(cfg, "\n")+"\n"), 0o600); err != nil {
 		return info, err
@@ -765,6 +796,11 @@ func checkCase(c txCase) (info caseInfo, err error) {
 	if c.Msg != "" {
 		args = append(args, "-msg", c.Msg)
 	}
+	signAddr := ""
+	if c.SignKey != nil && c.Msg != "" {
+		signAddr = addressOf(scriptOf(spk{Kind: "p2pkh", Key: *c.SignKey}, keys), c.W.Testnet)
+		args = append(args, "-sign", signAddr)
+	}
 	if c.Seq != nil {
 		args = append(args, "-seq", fmt.Sprint(*c.Seq))
 	}
@@ -796,6 +832,14 @@ func checkCase(c txCase) (info caseInfo, err error) {
 		return info, fmt.Errorf("%v: %s", err, res)
 	}
 	unspentAfter, _ := os.ReadFile(filepath.Join(dir, "balance", "unspent.txt"))
+	if signAddr != "" {
+		// the message signature printed before the transaction is made: it must recover the key of that address
+		k := keys[((*c.SignKey%len(keys))+len(keys))%len(keys)]
+		if e := checkMessageSignature(res.stdout, c.Msg, k.pub); e != nil {
+			return info, fmt.Errorf("-sign %s -msg %q: %v: %s", signAddr, c.Msg, e, res)
+		}
+		info.msgSigned = true
+	}
 
 	if got == nil {
 		// nothing written
@@ -1020,6 +1064,12 @@ func genCase(t *rapid.T) txCase {
 	c.W = wcfg{Type: 3, AType: rapid.SampledFrom([]string{"p2kh", "segwit", "bech32", "tap"}).Draw(t, "atype"),
 		Testnet: rapid.IntRange(0, 2).Draw(t, "testnet") == 0, KeyCnt: rapid.IntRange(3, 20).Draw(t, "keycnt"),
 		Pass: rapid.StringMatching(`[a-zA-Z0-9 ]{4,20}`).Draw(t, "pass")}
+	if rapid.IntRange(0, 3).Draw(t, "seedpfx") == 0 {
+		c.W.SeedPfx = rapid.StringMatching(`[a-zA-Z0-9_.:-]{1,40}`).Draw(t, "seedpfxv")
+		if rapid.Bool().Draw(t, "shortpass") {
+			c.W.Pass = c.W.Pass[:3]
+		}
+	}
 	if rapid.Bool().Draw(t, "type4") {
 		c.W.Type = 4
 		c.W.Path = rapid.SampledFrom(hdPaths).Draw(t, "path")
@@ -1248,6 +1298,15 @@ func genCase(t *rapid.T) txCase {
 	}
 	c.UseAll = rapid.IntRange(0, 5).Draw(t, "useall") == 0
 	c.NoApply = rapid.IntRange(0, 7).Draw(t, "noapply") == 0
+	if nSend > 0 && rapid.IntRange(0, 5).Draw(t, "sign") == 0 {
+		// -sign with -send: the message is signed first, then main() builds the wallet again for the transaction
+		// (main() goes on after signing only when -send is given; with -batch alone it stops after the signature)
+		k := rapid.IntRange(0, 19).Draw(t, "signkey")
+		c.SignKey = &k
+		if c.Msg == "" {
+			c.Msg = "signed " + fmt.Sprint(k)
+		}
+	}
 	return c
 }
 
@@ -1317,6 +1376,12 @@ func TestWalletTx(t *testing.T) {
 			if padded {
 				r.Class("spaces_around_pairs")
 			}
+		}
+		if info.msgSigned {
+			r.Class("opt_-sign_with_-send")
+		}
+		if c.W.SeedPfx != "" {
+			r.Class("seed_prefix")
 		}
 		if info.outcome == "written" && !info.change {
 			r.Class("whole_balance_no_change")
